@@ -1019,6 +1019,8 @@ func init() {
 	externals["sort.Slice"] = sortSlice
 	externals["sort.SliceStable"] = sortSlice
 
+	externals["internal/stringslite.Clone"] = func(fr *frame, args []value) (value, bool) { return done(args[0]) }
+	externals["strings.Clone"] = externals["internal/stringslite.Clone"]
 	// ---------------- maps / runtime helpers
 	externals["maps.clone"] = func(fr *frame, args []value) (value, bool) {
 		it := args[0].(iface)
